@@ -26,9 +26,12 @@ func init() {
 	register(&fw.Spec{
 		ID:    "C01",
 		Level: "exploration",
-		Rule: "base = one genuine document from the independent issuer (RSA PKCS#1 / PSS, ECDSA on several curves, SHA-1..512, with or without CardSecurity); evaluation = one input (SOD, data groups, CardSecurity, trust store) given to passiveauth.PassiveAuth: (a) single-bit flips swept over the SOD (every byte in thorough), every data group, CardSecurity and every trust-store certificate; (b) semantic forgeries (re-signed by an untrusted signer, DS under an untrusted CSCA copying name and key identifier, swapped DS certificate, hash list altered with/without recomputed messageDigest, altered / injected / mis-numbered data group, DS without digitalSignature, anchor without CA flag / keyCertSign, DS or anchor outside validity by one second, anchor of another country, DS country differing from DG1, anchor removed or replaced by a same-identifier impostor, forged master lists); (c) byte mutations of forgeries; " +
+		Rule: "base = one genuine document from the independent issuer (RSA PKCS#1 / PSS, ECDSA on several curves, SHA-1..512, with or without CardSecurity); evaluation = one input (SOD, data groups, CardSecurity, trust store) given to passiveauth.PassiveAuth: (a) single-bit flips swept over the SOD (every byte in thorough), every data group, CardSecurity and every trust-store certificate; (b) semantic forgeries (re-signed by an untrusted signer, DS under an untrusted CSCA copying name and key identifier, swapped DS certificate, hash list altered with/without recomputed messageDigest, altered / injected / mis-numbered data group, DS without digitalSignature, anchor without CA flag / keyCertSign, DS or anchor outside validity by one second, anchor of another country, DS country differing from DG1, anchor removed or replaced by a same-identifier impostor, security object carrying the rogue issuer of its own signer / a rogue twin of the anchor / a self-signed CA signer, forged master lists incl. lists that carry the issuer of their own signer in the certificates field or in the signed list); (c) byte mutations of forgeries; (d) wrong-country documents by MRZ issuing state: genuine in every other respect and signed below a trusted CSCA, DG1 naming a special ICAO code that is no ISO 3166-1 country, an unassigned code, a mis-shaped field or another country (all of ISO 3166-1 in thorough), with one or three countries in the store; " +
 			"oracle: accepted => reference conditions hold; non-trivial = input differs from the genuine base; distinct = (base, mutation) hash",
 		MinEvaluations: 5000,
+		// broken-harness guard only (a hang is no verdict for C01): one thorough base case is
+		// ~3-4 minutes of CPU and exceeded the default 900 s on a machine at load average 600+
+		HangSeconds: 3600,
 		Assumptions: []string{
 			"reference = the statement's conditions only (refverify.PA on the harness's BER reader and primitives); signature validity is judged leniently (any supported digest, explicit EC parameters resolved by prime, alternative-curve fallback) so that correct code is never flagged",
 			"mutations that land in unsigned regions may legitimately stay accepted; they are counted as accepted_still_valid",
@@ -157,8 +160,11 @@ func c01Ref(in c01Input) (ok bool, why string, unknown bool) {
 		pin.DG1Present = true
 		// issuing state: characters 3..5 of the MRZ inside 61 L 5F1F L
 		if st, found := c01DG1State(dg1); found {
-			if a2, ok2 := refverify.Alpha2(st); ok2 {
+			if a2, ok2 := refverify.StateAlpha2(st); ok2 {
 				pin.DG1State = a2
+			} else {
+				// readable, but no country under the documented rule (ISO 3166-1 alpha-3 or 'D')
+				pin.DG1StateRaw = &st
 			}
 		}
 	}
@@ -190,6 +196,7 @@ type c01Base struct {
 	country  [2]string
 	st       time.Time
 	cscaName issuer.Name
+	mrz      ldsgen.MRZFields
 }
 
 // c01BuildBase issues a genuine document and keeps what forgeries need.
@@ -219,6 +226,7 @@ func c01BuildBase(r *mrand.Rand, i int) *c01Base {
 	b.st = issuer.BaseTime
 	f := ldsgen.RandMRZ(r, ldsgen.MRZOpts{Plain: true})
 	f.IssuingState, f.Nationality = cc[0], cc[0]
+	b.mrz = f
 	dg1, _ := ldsgen.NewDG1(r, ldsgen.DG1Opts{Fields: &f})
 	b.files = map[int][]byte{1: dg1}
 	b.files[2], _ = ldsgen.NewDG2(r, ldsgen.DG2Opts{Templates: 1, ImagesPerTemplate: 1, ImageBytes: 40})
@@ -301,6 +309,44 @@ func (b *c01Base) forgeries(r *mrand.Rand) []c01Forgery {
 		cert := issuer.BuildCert(r, spec, evilCSCA)
 		add("ds-under-untrusted-csca-copying-aki", func(in *c01Input) {
 			in.sod = b.sign(r, evil, content, func(s *issuer.SignedDataSpec) { s.Certs = [][]byte{cert} })
+		})
+	}
+	// the object carries the issuer of its own signer: a certificate that is only inside the
+	// object itself is never a trust anchor, whatever it copies from the genuine one
+	add("sod-carries-its-own-rogue-csca", func(in *c01Input) {
+		in.sod = b.sign(r, evil, content, func(s *issuer.SignedDataSpec) { s.Certs = [][]byte{evil.DSCert, evil.CSCACert} })
+	})
+	add("sod-carries-its-own-rogue-csca-first", func(in *c01Input) {
+		in.sod = b.sign(r, evil, content, func(s *issuer.SignedDataSpec) { s.Certs = [][]byte{evil.CSCACert, evil.DSCert} })
+	})
+	{
+		// rogue CSCA copying subject AND key identifier of the trusted anchor, carried inside,
+		// next to a DS that names the trusted key identifier
+		ca := evil.CSCASpec
+		ca.SKI, ca.AKI = b.pki.CSCAKey.KeyID(), b.pki.CSCAKey.KeyID()
+		twin := issuer.BuildCert(r, ca, evilCSCA)
+		ds := evil.DSSpec
+		ds.AKI = b.pki.CSCAKey.KeyID()
+		cert := issuer.BuildCert(r, ds, evilCSCA)
+		add("sod-carries-rogue-twin-of-the-anchor", func(in *c01Input) {
+			in.sod = b.sign(r, evil, content, func(s *issuer.SignedDataSpec) { s.Certs = [][]byte{cert, twin} })
+		})
+		add("sod-carries-rogue-csca-and-the-genuine-anchor", func(in *c01Input) {
+			in.sod = b.sign(r, evil, content, func(s *issuer.SignedDataSpec) { s.Certs = [][]byte{evil.DSCert, evil.CSCACert, b.pki.CSCACert} })
+		})
+	}
+	{
+		// a self-signed signer that is its own CA
+		ds := evil.DSSpec
+		ds.Issuer, ds.AKI = ds.Subject, evilDS.KeyID()
+		ds.BasicCons, ds.IsCA, ds.PathLen = true, true, 0
+		ds.KeyUsage = issuer.KUDigitalSignature | issuer.KUKeyCertSign
+		ds.Scheme = issuer.SchemeFor(evilDS, p.dsPSS)
+		cert := issuer.BuildCert(r, ds, evilDS)
+		add("sod-signed-by-selfsigned-ca-signer", func(in *c01Input) {
+			in.sod = b.sign(r, evil, content, func(s *issuer.SignedDataSpec) {
+				s.Certs, s.SIDIssuerDER = [][]byte{cert}, ds.Subject.DER()
+			})
 		})
 	}
 	// swapped DS certificate: a valid certificate of the trusted CSCA, but for another key
@@ -418,6 +464,12 @@ func (b *c01Base) forgeries(r *mrand.Rand) []c01Forgery {
 		add("cardsecurity-resigned-by-untrusted-pki", func(in *c01Input) {
 			s2 := evil.SignerSpec(p.digest, false)
 			s2.EContentType, s2.EContent, s2.SigningTime = issuer.OIDSecurityObject, issuer.QuickSecurityInfos(), &b.st
+			in.cardSec = issuer.BuildSignedData(r, s2)
+		})
+		add("cardsecurity-carries-its-own-rogue-csca", func(in *c01Input) {
+			s2 := evil.SignerSpec(p.digest, false)
+			s2.EContentType, s2.EContent, s2.SigningTime = issuer.OIDSecurityObject, issuer.QuickSecurityInfos(), &b.st
+			s2.Certs = [][]byte{evil.DSCert, evil.CSCACert}
 			in.cardSec = issuer.BuildSignedData(r, s2)
 		})
 		// CardSecurity has its own signing time: the signer must be valid at THAT time
@@ -570,7 +622,7 @@ func first2(t [][]byte) []byte {
 }
 
 // master lists: accepted only when signed under the supplied root
-func c01MasterList(k *fw.K, i int) {
+func c01MasterList(c *fw.Ctx, k *fw.K, i int) {
 	r := k.RNG
 	root := issuer.NewPKI(r, issuer.PKIOpts{Country: "DE", CertHash: issuer.SHA256, CSCAKey: c09Key(r, 3+4+(i%3), false), DSKey: c09Key(r, 3+4, false),
 		CSCAName: issuer.SimpleName("DE", "BSI", "CSCA root"), DSName: issuer.SimpleName("DE", "BSI", "Master List Signer")})
@@ -626,6 +678,10 @@ func c01MasterList(k *fw.K, i int) {
 		return
 	}
 	k.Count("masterlist_forgery_rejected")
+	// lists that vouch for themselves (signer chain ends in a certificate carried by the list)
+	if !c01MasterListSelfVouching(c, k, i, root, certs) {
+		return
+	}
 	// bit flips over the genuine list
 	for pos := 0; pos < len(genuine); pos += 1 + r.IntN(9) {
 		v := append([]byte{}, genuine...)
@@ -662,5 +718,7 @@ func runC01(c *fw.Ctx) {
 	n := c.Pick(12, 60)
 	c.Cases(n, func(i int) string { return fmt.Sprintf("base|i=%d", i) }, func(i int, k *fw.K) { c01Case(c, k, i) })
 	nm := c.Pick(12, 80)
-	c.Cases(nm, func(i int) string { return fmt.Sprintf("masterlist|i=%d", i) }, func(i int, k *fw.K) { c01MasterList(k, i) })
+	c.Cases(nm, func(i int) string { return fmt.Sprintf("masterlist|i=%d", i) }, func(i int, k *fw.K) { c01MasterList(c, k, i) })
+	ns := c.Pick(12, 36)
+	c.Cases(ns, func(i int) string { return fmt.Sprintf("dg1state|i=%d", i) }, func(i int, k *fw.K) { c01StateCase(c, k, i) })
 }
